@@ -89,6 +89,13 @@ def streams(tier):
             for idx in range(len(mn)):
                 data = ch + ibytes + mn[idx][1]
                 out.append(dict(name='passive/%s/%s' % (iname, mn[idx][0]), role='passive', stream=data.hex()))
+    # field values no enumeration of the repository names: SESS_TERM reason codes outside the registered ones,
+    # MSG_REJECT with an unregistered reason, each followed by further complete messages
+    for (nm, first) in (('sess-term-reason-0x40', T.enc_sess_term(0, 0x40)), ('sess-term-reason-0xff-reply', T.enc_sess_term(1, 0xFF)),
+                        ('msg-reject-of-type-0x40', T.enc_reject(0x40, 3)), ('msg-reject-reason-0x40', T.enc_reject(3, 0x40))):
+        for follow in (T.enc_keepalive(), T.enc_segment(3, 5, b'ab', [T.ext_total_length(2)]) + T.enc_keepalive()):
+            data = ch + inits[0][1] + first + follow
+            out.append(dict(name='passive/%s/%s+%d-octets' % (inits[0][0], nm, len(follow)), role='passive', stream=data.hex()))
     # the active role: R has sent its header first and waits for the peer's
     for (iname, ibytes) in inits:
         for combo in [(), (1,), (3, 4), (9,)]:
